@@ -23,10 +23,11 @@ VARIABLES br,        \* [Browsers -> session the browser's jar holds]   age: fre
           idpOK,     \* the IdP answers refresh requests
           member,    \* users who are in the allowed group AT THE IDP right now (a session learns of a change only by a refresh or a new login)
           usedRT,    \* cookie store: <<sid, gen>> whose refresh token the IdP has already redeemed (it rotates them)
-          nsid, hist
-vars == <<br, stored, snaps, allowed, idpOK, member, usedRT, nsid, hist>>
+          nsid, hist,
+          proj       \* history of the abstract state's projection after every step (compared with the real proxy's state: conformance)
+vars == <<br, stored, snaps, allowed, idpOK, member, usedRT, nsid, hist, proj>>
 
-Init == /\ br = [b \in Browsers |-> NoSess] /\ stored = {} /\ snaps = <<>> /\ allowed = {"alice"} /\ idpOK = TRUE /\ member = Users /\ usedRT = {} /\ nsid = 0 /\ hist = <<>>
+Init == /\ br = [b \in Browsers |-> NoSess] /\ stored = {} /\ snaps = <<>> /\ allowed = {"alice"} /\ idpOK = TRUE /\ member = Users /\ usedRT = {} /\ nsid = 0 /\ hist = <<>> /\ proj = <<>>
 
 Step(a, args, req) == hist' = Append(hist, [a |-> a, args |-> args, req |-> req])
 More == Len(hist) < MaxSteps
@@ -80,9 +81,13 @@ Request(b, ep) ==
 SignOut(b) ==
     /\ More /\ br[b].user # "none"
     /\ br' = [br EXCEPT ![b] = NoSess]
-    /\ stored' = IF ~br[b].tampered THEN stored \ {br[b].sid} ELSE stored
+    \* the entry can only be found through a ticket cookie that still verifies (an expired or altered one names nothing; the entry
+    \* then lives on until its TTL, unreachable)
+    /\ stored' = IF ~br[b].tampered /\ br[b].age # "expired" THEN stored \ {br[b].sid} ELSE stored
+    \* the sign-out request passes the session loader like any other: a stale session is refreshed first (its refresh token is spent)
+    /\ usedRT' = IF Refreshes(br[b]) /\ Store = "cookie" THEN usedRT \cup {<<br[b].sid, br[b].gen>>} ELSE usedRT
     /\ Step("signout", [b |-> b], [status |-> 302, stillSignedIn |-> FALSE])
-    /\ UNCHANGED <<snaps, allowed, idpOK, member, usedRT, nsid>>
+    /\ UNCHANGED <<snaps, allowed, idpOK, member, nsid>>
 
 \* an old credential of ANY browser is presented by browser b (theft / replay)
 Replay(b, i) ==
@@ -138,12 +143,16 @@ StoreFlush ==
     /\ Step("flush", [n |-> Cardinality(stored)], [ok |-> TRUE])
     /\ UNCHANGED <<br, snaps, allowed, idpOK, member, usedRT, nsid>>
 
-Next == \/ \E b \in Browsers, u \in Users : Login(b, u)
-        \/ \E b \in Browsers, ep \in {"proxy", "authonly", "userinfo"} : Request(b, ep)
-        \/ \E b \in Browsers : SignOut(b) \/ Tamper(b)
-        \/ \E b \in Browsers, i \in 1..3 : Replay(b, Len(snaps) + 1 - i)
-        \/ \E b \in Browsers, to \in {"stale", "expired"} : Age(b, to)
-        \/ RulesChange \/ IdPToggle \/ StoreFlush \/ GroupChange("alice")
+\* what can be seen of the state from outside: does each browser hold a session cookie, how many sessions does the store hold
+Proj == [b1 |-> br["b1"].user # "none", b2 |-> br["b2"].user # "none", nstored |-> IF Store = "redis" THEN Cardinality(stored) ELSE 0]
+P == proj' = Append(proj, Proj')
+\* (kept as a top-level disjunction: TLC's simulator then draws an action first and only evaluates that action's successors)
+Next == \/ (\E b \in Browsers, u \in Users : Login(b, u)) /\ P
+        \/ (\E b \in Browsers, ep \in {"proxy", "authonly", "userinfo"} : Request(b, ep)) /\ P
+        \/ (\E b \in Browsers : SignOut(b) \/ Tamper(b)) /\ P
+        \/ (\E b \in Browsers, i \in 1..3 : Replay(b, Len(snaps) + 1 - i)) /\ P
+        \/ (\E b \in Browsers, to \in {"stale", "expired"} : Age(b, to)) /\ P
+        \/ (RulesChange \/ IdPToggle \/ StoreFlush \/ GroupChange("alice")) /\ P
 
 \* ---- model-level properties -------------------------------------------------------------------------
 \* a browser is only ever served as the user of the credential it presents
@@ -152,7 +161,7 @@ Isolation == (Len(hist) > 0 /\ Last.a = "request" /\ Last.req.served) => Last.re
 \* server-side store: a signed-out or flushed session id never authenticates again
 Ended == Store = "redis" => \A i \in 1..Len(snaps) : snaps[i].sess.sid \notin stored => ~Exists(snaps[i].sess)
 
-CaseRec == [fam |-> "lifecycle", cfg |-> [store |-> Store, refresh |-> RefreshOn], in |-> [store |-> Store, refresh |-> RefreshOn, steps |-> Len(hist)], steps |-> hist]
+CaseRec == [fam |-> "lifecycle", cfg |-> [store |-> Store, refresh |-> RefreshOn], in |-> [store |-> Store, refresh |-> RefreshOn, steps |-> Len(hist)], steps |-> [i \in 1..Len(hist) |-> hist[i] @@ [impl |-> proj[i]]]]
 EmitVocab == JsonSerialize("vocab.json", Vocab)
 EmitCase  == (Len(hist) = MaxSteps) => CSVWrite("%1$s", <<ToJson(CaseRec)>>, "cases.ndjson")
 =============================================================================
